@@ -236,3 +236,90 @@ def linear_terms(e):
             out.append((sgn, src(n)))
     rec(e, 1)
     return out
+
+
+def eval_test(expr, env):
+    """Three-valued evaluation (True/False/None=unknown) of a condition with
+    the source texts in env bound to concrete Python values."""
+    UNK = None
+
+    def val(n):
+        s = src(n)
+        if s in env:
+            return ('v', env[s])
+        c = const(n, _NO)
+        if c is not _NO:
+            return ('v', c)
+        if isinstance(n, ast.UnaryOp) and isinstance(n.op, ast.USub):
+            v = val(n.operand)
+            return ('v', -v[1]) if v and isinstance(v[1], (int, float)) else UNK
+        if isinstance(n, ast.BinOp):
+            l, r = val(n.left), val(n.right)
+            if l and r and all(isinstance(x[1], (int, float)) for x in (l, r)):
+                try:
+                    if isinstance(n.op, ast.Add):
+                        return ('v', l[1] + r[1])
+                    if isinstance(n.op, ast.Sub):
+                        return ('v', l[1] - r[1])
+                    if isinstance(n.op, ast.Mult):
+                        return ('v', l[1] * r[1])
+                    if isinstance(n.op, ast.Div):
+                        return ('v', l[1] / r[1])
+                except ZeroDivisionError:
+                    return UNK
+        return UNK
+
+    def ev(n):
+        if isinstance(n, ast.UnaryOp) and isinstance(n.op, ast.Not):
+            v = ev(n.operand)
+            return None if v is None else (not v)
+        if isinstance(n, ast.BoolOp):
+            vs = [ev(x) for x in n.values]
+            if isinstance(n.op, ast.And):
+                if any(v is False for v in vs):
+                    return False
+                return True if all(v is True for v in vs) else None
+            if any(v is True for v in vs):
+                return True
+            return False if all(v is False for v in vs) else None
+        if isinstance(n, ast.Compare):
+            l = val(n.left)
+            res = True
+            for op, r_ in zip(n.ops, n.comparators):
+                r = val(r_)
+                if not l or not r:
+                    return None
+                a, b = l[1], r[1]
+                try:
+                    if isinstance(op, ast.Lt):
+                        ok = a < b
+                    elif isinstance(op, ast.LtE):
+                        ok = a <= b
+                    elif isinstance(op, ast.Gt):
+                        ok = a > b
+                    elif isinstance(op, ast.GtE):
+                        ok = a >= b
+                    elif isinstance(op, ast.Eq):
+                        ok = a == b
+                    elif isinstance(op, ast.NotEq):
+                        ok = a != b
+                    elif isinstance(op, ast.Is):
+                        ok = a is b
+                    elif isinstance(op, ast.IsNot):
+                        ok = a is not b
+                    else:
+                        return None
+                except TypeError:
+                    return None
+                if not ok:
+                    return False
+                l = r
+            return res
+        v = val(n)
+        if v:
+            return bool(v[1])
+        return None
+    return ev(expr)
+
+
+_NO = object()
